@@ -1,0 +1,92 @@
+//go:build verif
+
+package ratelimitmw
+
+// Contracts for govc (see /verif/DESIGN.md).  Comment-only file.  The ghost
+// effect state (writes, served, ...) is declared in dnsserver's contract file.
+
+//@ import dns github.com/miekg/dns
+//@ import dnsserver github.com/AdguardTeam/AdGuardDNS/internal/dnsserver
+//@ import ratelimit github.com/AdguardTeam/AdGuardDNS/internal/dnsserver/ratelimit
+//@ import agd github.com/AdguardTeam/AdGuardDNS/internal/agd
+//@ import access github.com/AdguardTeam/AdGuardDNS/internal/access
+//@ import geoip github.com/AdguardTeam/AdGuardDNS/internal/geoip
+//@ import netip net/netip
+//@ import dnsmsg github.com/AdguardTeam/AdGuardDNS/internal/dnsmsg
+
+// The middleware's fields are set once in New.
+//@ immutable Middleware.*
+
+// Observers.
+//@ interface Metrics method *
+//@   modifies nothing
+//@ interface ratelimit.Metrics method *
+//@   modifies nothing
+
+// The answers of the limiters, recorded so that postconditions can refer to
+// them; counted is the number of CountResponses calls.
+//@ ghost rlDrop map[ratelimit.Interface]bool
+//@ ghost rlAllow map[ratelimit.Interface]bool
+//@ ghost rlErr map[ratelimit.Interface]bool
+//@ ghost rlCounted map[ratelimit.Interface]int
+//@ interface ratelimit.Interface method IsRateLimited
+//@   modifies heap, rlDrop[this], rlAllow[this], rlErr[this], chas, cval, rk, rlog
+//@   ensures rlDrop[this] == shouldDrop && rlAllow[this] == isAllowlisted && rlErr[this] == (err != nil)
+//@ interface ratelimit.Interface method CountResponses
+//@   modifies heap, rlCounted[this], chas, cval, rk, rlog
+//@   ensures rlCounted[this] == old(rlCounted[this]) + 1
+
+//@ ghost prlResult map[agd.Ratelimiter]int
+//@ ghost prlCounted map[agd.Ratelimiter]int
+//@ interface agd.Ratelimiter method Check
+//@   modifies heap, prlResult[this], rk, rlog
+//@   ensures prlResult[this] == res && 1 <= res && res <= 3
+//@ interface agd.Ratelimiter method CountResponses
+//@   modifies heap, prlCounted[this], rk, rlog
+//@   ensures prlCounted[this] == old(prlCounted[this]) + 1
+
+//@ pred MW(mw *Middleware) = mw.limiter != nil && mw.metrics != nil && mw.accessManager != nil && mw.messages != nil &&
+//@        mw.deviceFinder != nil && mw.geoIP != nil && mw.pool != nil
+
+// ---------------------------------------------------------------------------
+// C09: drop = return without writing and without running the next stage.
+
+//@ func (*Middleware).serveWithGlobalRatelimiting
+//@   property C09
+//@   requires MW(mw) && rw != nil && req != nil && ri != nil && next != nil
+//@   modifies heap, rlDrop, rlAllow, rlErr, rlCounted, chas, cval, rk, rlog, served, servedReq, servedRW, servedErr,
+//@            writes, wroteReq, wroteResp, wroteId, wroteRcode, wroteNQ, wroteQ, truncSize
+//@   let lim = mw.limiter
+//@   ensures limiter-error: rlErr[lim] ==> err != nil && writes[rw] == old(writes[rw]) && served[next] == old(served[next])
+//@   ensures dropped-silently: !rlErr[lim] && rlDrop[lim] ==> err == nil &&
+//@             (forall w dnsserver.ResponseWriter :: writes[w] == old(writes[w])) && (forall h dnsserver.Handler :: served[h] == old(served[h]))
+//@   ensures allowlisted-pass-through: !rlErr[lim] && !rlDrop[lim] && rlAllow[lim] ==>
+//@             served[next] == old(served[next]) + 1 && servedRW[next] == rw && servedReq[next] == req && rlCounted[lim] == old(rlCounted[lim])
+//@   ensures limited-clients-counted: !rlErr[lim] && !rlDrop[lim] && !rlAllow[lim] ==>
+//@             served[next] == old(served[next]) + 1 && servedReq[next] == req && servedRW[next] != rw &&
+//@             writes[rw] <= old(writes[rw]) + 1 && (writes[rw] == old(writes[rw]) + 1 ==> rlCounted[lim] == old(rlCounted[lim]) + 1)
+
+//@ func (*Middleware).serveWithProfileRatelimiting
+//@   property C09
+//@   requires MW(mw) && rw != nil && req != nil && ri != nil && next != nil
+//@   requires isptr(ri.DeviceResult, agd.DeviceResultOK) ==> asptr(ri.DeviceResult, agd.DeviceResultOK) != nil &&
+//@            (asptr(ri.DeviceResult, agd.DeviceResultOK).Profile != nil ==> asptr(ri.DeviceResult, agd.DeviceResultOK).Profile.Ratelimiter != nil)
+//@   modifies heap, prlResult, prlCounted, rk, rlog, served, servedReq, servedRW, servedErr,
+//@            writes, wroteReq, wroteResp, wroteId, wroteRcode, wroteNQ, wroteQ, truncSize
+//@   ensures anonymous-uses-global: !isptr(old(ri.DeviceResult), agd.DeviceResultOK) ==> !shouldReturn && err == nil &&
+//@             (forall w dnsserver.ResponseWriter :: writes[w] == old(writes[w])) && (forall h dnsserver.Handler :: served[h] == old(served[h]))
+//@   ensures not-returning-means-untouched: !shouldReturn ==> err == nil &&
+//@             (forall w dnsserver.ResponseWriter :: writes[w] == old(writes[w])) && (forall h dnsserver.Handler :: served[h] == old(served[h]))
+
+//@ ghost rlStage int
+//@ func (*Middleware).serveWithRatelimiting
+//@   property C09
+//@   requires MW(mw) && rw != nil && req != nil && ri != nil && next != nil
+//@   requires isptr(ri.DeviceResult, agd.DeviceResultOK) ==> asptr(ri.DeviceResult, agd.DeviceResultOK) != nil &&
+//@            (asptr(ri.DeviceResult, agd.DeviceResultOK).Profile != nil ==> asptr(ri.DeviceResult, agd.DeviceResultOK).Profile.Ratelimiter != nil)
+//@   modifies heap, rlDrop, rlAllow, rlErr, rlCounted, prlResult, prlCounted, chas, cval, rk, rlog, served, servedReq, servedRW, servedErr,
+//@            writes, wroteReq, wroteResp, wroteId, wroteRcode, wroteNQ, wroteQ, truncSize, rlStage
+//@   ghostset rlStage = rlStage + 1
+//@   ensures rlStage == old(rlStage) + 1
+//@   ensures other-protocols-not-limited: !(exists i int :: 0 <= i && i < old(len(mw.protos)) && old(mw.protos[i]) == old(ri.Proto)) ==>
+//@             served[next] == old(served[next]) + 1 && servedRW[next] == rw && servedReq[next] == req
